@@ -249,8 +249,9 @@ func (p *Policy) sanitize(r io.Reader, w io.Writer) error {
 
 		case html.CommentToken:
 
-			// Comments are ignored by default
-			if p.allowComments {
+			// Comments are ignored by default, and are part of the content of
+			// an element whose content is skipped
+			if p.allowComments && !skipElementContent {
 				// But if allowed then write the comment out as-is
 				if _, err := buff.WriteString(token.String()); err != nil {
 					return err
